@@ -75,7 +75,7 @@ ASSUMPTIONS = [
 PROBES = [
     "filter_with_cacheable_nodes_evaluated", "reuse_depth_ge_100", "preempted_inside_compile", "preempted_inside_filter",
     "abandoned_mid_filter", "cancel_inside_evaluation", "repurge_between_regex_calls", "same_query_two_docs_midflight",
-    "preempt_same_file_two_threads",
+    "preempt_same_file_two_threads", "compiled_many_other_texts", "short_lived_documents",
 ]
 _SCRATCH_ENV = jsonpath.JSONPathEnvironment()
 ENVS = ["on", "off", "default"]
@@ -87,6 +87,11 @@ ENVS = ["on", "off", "default"]
 
 def _variant(rng: Any, doc: Any, k: int) -> Any:
     d = copy.deepcopy(doc)
+    if isinstance(d, dict) and d and rng.random() < 0.35:
+        # a member present in one document and absent in the next (an empty node list is a result too)
+        del d[rng.choice(list(d))]
+    if isinstance(d, dict) and rng.random() < 0.2:
+        d[rng.choice(gen_json.KEYS_PLAIN)] = rng.choice(gen_json.SCALARS)
     leaves = [(l, v) for l, v in gen_json.walk(d) if l and not isinstance(v, (dict, list))]
     for _ in range(k):
         if not leaves:
@@ -165,10 +170,17 @@ def generate(seed: int, config: str, tier: str) -> Dict[str, Any]:
                 elif r < 0.8:
                     script.append(["hot", e, qi, [rng.randrange(len(docs)) for _ in range(rng.randint(1, 3))], ci,
                                    rng.choice([3, 10, (1000 if deep and rng.random() < 0.1 else 100) if rng.random() < 0.3 else 20])])
-                elif r < 0.86:
+                elif r < 0.84:
                     script.append(["recompile", e, qi, di, ci])
-                elif r < 0.9:
+                elif r < 0.87:
                     script.append(["envfind", e, qi, di, ci])
+                elif r < 0.9:
+                    script.append(rng.choice([
+                        # short-lived copies of the documents: created, evaluated, dropped (addresses get reused)
+                        ["ephemeral", e, qi, [rng.randrange(len(docs)) for _ in range(rng.randint(2, 4))], ci, rng.choice([6, 20, 60])],
+                        # many other texts compiled on the shared environment (more than any plausible memo holds)
+                        ["compile_many", e, qi, di, ci, rng.choice([5, 40, 140, 300])],
+                    ]))
                 elif faulty:
                     script.append([frng.choice(["gc", "repurge"])])
                 else:
@@ -181,8 +193,10 @@ def generate(seed: int, config: str, tier: str) -> Dict[str, Any]:
                 else:
                     script.append([frng.choice(["gc", "repurge"])])
             else:
-                if r < 0.25:
+                if r < 0.22:
                     script.append(["recompile", e, qi, di, ci])
+                elif r < 0.3:
+                    script.append(["compile_many", e, qi, di, ci, rng.choice([5, 40, 40, 140])])
                 elif r < 0.4:
                     script.append(["envfind", e, qi, di, ci])
                 elif r < 0.65:
@@ -553,6 +567,47 @@ def _sync_op(w: World, ctx: Ctx, cid: int, op: List[Any], yield_point: Any = Non
         ctx.log.add("findall", cid, e, qi, di, ci, exc or len(got_vals))
         w.check_all(desc, [("?", v) for v in got_vals], exc, ref.for_findall(), True)
         ctx.state("sync", e, "findall")
+        return None
+    if kind == "compile_many":
+        n = int(op[5])
+        env = w.envs[e]
+        base = ctx.seed % 1000
+        for k in range(n):
+            text = f"$.k{base}_{cid}_{k}[?@.v == {k}]" if k % 3 == 0 else f"$.k{base}_{cid}_{k}"
+            try:
+                env.compile(text)
+            except Exception as ex:  # noqa: BLE001
+                raise Violation(
+                    "C09.recompile",
+                    f"client {cid}: compiling {text!r} on the shared environment {e} raised {type(ex).__name__}: {ex}",
+                    f"C09.recompile:raise:{type(ex).__name__}",
+                ) from None
+        ctx.steps += n
+        ctx.count("probe.compiled_many_other_texts")
+        ctx.log.add("compile_many", cid, e, n)
+        ctx.state("sync", e, "compile_many", n)
+        return None
+    if kind == "ephemeral":
+        n = int(op[5])
+        dis = [d % len(w.docs) for d in op[3]] or [0]
+        for k in range(n):
+            dj = dis[k % len(dis)]
+            r = w.refs[(qi, dj, ci)]
+            tmp = copy.deepcopy(w.plan["docs"][dj])
+            got5: List[Any] = []
+            exc5: Optional[str] = None
+            try:
+                for m in c.finditer(tmp, **w.kw(ci)):
+                    got5.append((m.path, core.tj(m.obj)))
+            except Exception as ex:  # noqa: BLE001
+                exc5 = type(ex).__name__
+            m = None  # the last match keeps its root document alive
+            del tmp
+            w.check_all(f"{desc} (short-lived copy #{k + 1} of {n}, document {dj})", got5, exc5, r)
+            ctx.steps += 1
+        ctx.count("probe.short_lived_documents")
+        ctx.log.add("ephemeral", cid, e, qi, n)
+        ctx.state("sync", e, "ephemeral", n)
         return None
     if kind == "envfind":
         # the environment-level entry point compiles the text again on the shared environment and evaluates
